@@ -72,7 +72,8 @@ class C09Expanding(Scenario):
             key = seams.key_of(step["k"])
             was_present = o.check(key)
             eff = step["force"] or not was_present
-            structs.api_add(o, key, step.get("alt"), force=bool(step["force"]), hasher=self.sub.hasher)
+            structs.api_add(o, key, step.get("alt"), force=bool(step["force"]), hasher=self.sub.hasher,
+                            buf=self.__dict__.setdefault("buf", []))
             self.calls += 1
             counts, arrays, foot = self.stream(sig)
             if eff:
